@@ -68,6 +68,11 @@ def gen(E, p):
         if p["bvdata"] == "big":
             for d in data:
                 E.assume(z3.And(d >= (1 << 62), d > 0))      # magnitudes whose sums leave the 64-bit range
+    elif dt.startswith("float"):
+        from . import c01
+        data = c01.gen_cells(E, S, dt)          # bit patterns, IEEE-exact comparisons and arithmetic; NaN excluded
+        for d in data:
+            E.assume(z3.Not(z3.fpIsNaN(np._to_fp(d, np.dtype(dt)))))
     elif dt == "bool":
         data = [E.bool(f"d{q}") for q in range(S)]
     elif dt in ("uint8", "int8"):
@@ -95,9 +100,9 @@ def z3_fold(op, lens, data, dt):
                 started = z3.Or(started, c)
             out.append(acc)
         elif op == "any":
-            out.append(z3.Or(*[z3.And(c, d) for c, d in zip(inrow, data)]) if data else z3.BoolVal(False))
+            out.append(z3.Or(*[z3.And(c, d if z3.is_bool(d) else d != 0) for c, d in zip(inrow, data)]) if data else z3.BoolVal(False))
         elif op == "all":
-            out.append(z3.And(*[z3.Implies(c, d) for c, d in zip(inrow, data)]) if data else z3.BoolVal(True))
+            out.append(z3.And(*[z3.Implies(c, d if z3.is_bool(d) else d != 0) for c, d in zip(inrow, data)]) if data else z3.BoolVal(True))
         elif op in ("bor", "bxor", "band"):
             ident = z3.BitVecVal(0xFF if op == "band" else 0, 8)
             acc = ident
@@ -131,6 +136,8 @@ def sym(E, p, kf):
         fresh = mk_ragged(RaggedArray, data, lens, dt)
         ref = programs.step(fresh, p["pre"], P, "s0")
         o = common.obs_ragged(ref)
+        if p["op"] in ("argmax", "argmin") and len(o["lens"]) == 0:
+            raise __import__("symx.engine", fromlist=["x"]).PathPruned()      # no row at all: outside the claim ("for every non-empty row"), as for freshly built arrays (Rmin=1)
         exp_arr = outcome(lambda: _call(RaggedArray(common.typed(o["flat"], dt), common.arr(o["lens"], "int64")), p["op"], via, p.get("keepdims", False)))
         case = dict(lens=lens, data=data, op=p["op"], via=via, keepdims=p.get("keepdims", False), dtype=dt, pre=p["pre"], params=P.values)
         return dict(goal=specs.obs_goal(got, exp_arr) if got["k"] == exp_arr["k"] else False, got=got, case=case)
@@ -264,12 +271,16 @@ def conc(case):
     if dt == "int64":
         data = [d - (1 << 64) if d >= 1 << 63 else d for d in data]
     rows = common.rows_of(data, case["lens"])
-    ra = mk_ragged(RaggedArray, np.array(data, dtype=dt) if data else [], case["lens"], dt)
+    mkdata = (lambda: common.typed(data, dt)) if dt.startswith("float") else (lambda: np.array(data, dtype=dt) if data else [])
+    ra = mk_ragged(RaggedArray, mkdata(), case["lens"], dt) if not dt.startswith("float") else RaggedArray(mkdata(), np.array(case["lens"], dtype="int64"))
     if case.get("pre"):
         from . import programs
         P = programs.ParamStore(None, dict(case["params"]), B=2)
         ra = programs.step(ra, case["pre"], P, "s0")
-        rows = common.rows_of(*[common.obs_ragged(programs.step(mk_ragged(RaggedArray, np.array(data, dtype=dt) if data else [], case["lens"], dt), case["pre"], P, "s0"))[k] for k in ("flat", "lens")])
+        fresh = mk_ragged(RaggedArray, mkdata(), case["lens"], dt) if not dt.startswith("float") else RaggedArray(mkdata(), np.array(case["lens"], dtype="int64"))
+        rows = common.rows_of(*[common.obs_ragged(programs.step(fresh, case["pre"], P, "s0"))[k] for k in ("flat", "lens")])
+    if dt.startswith("float"):
+        rows = [[float(x) for x in common.typed(r, dt)] if r else [] for r in rows]      # bit patterns -> numbers for the plain-Python fold
     got = outcome(lambda: _call(ra, case["op"], case["via"], case["keepdims"]))
     rd = _res_dtype(case["op"], dt)
     if case["via"] in ("none", "npnone"):
@@ -299,6 +310,12 @@ def jobs(tier, seed):
         out.append(dict(base, op=op, via="method", keepdims=True))
         out.append(dict(base, op=op, via="none", Rmin=1 if op in ("prod",) else 0))
     out.append(dict(base, op="sum", via="method1"))
+    # truth value of integer cells (a row of non-zero integers without a common bit is still all-true)
+    for op in ("any", "all"):
+        for dt in ("int64", "int8"):
+            for via in ("np", "method"):
+                out.append(dict(base, op=op, via=via, dtype=dt, R=3))
+        out.append(dict(base, op=op, via="np", dtype="int64", keepdims=False, R=3, L=2, npkw=True))
     for pre in ("rowrev", "rowlist", "mask", "colrev"):
         for op, via in (("sum", "method"), ("any", "reduce"), ("prod", "method"), ("all", "np")):
             if q and (op, via) not in (("sum", "method"), ("any", "reduce")):
@@ -321,6 +338,10 @@ def jobs(tier, seed):
         out.append(dict(base, op=op, via="none", Rmin=1, R=2, L=3))
         out.append(dict(base, op=op, via="method", keepdims=True, Rmin=1, **(dict(R=2, L=2) if q else small)))
         out.append(dict(base, op=op, via="method", Rmin=1, empties=True, R=3, L=2))
+        for pre in ("mask", "rowrev"):
+            # first use of a lazy selection, integer and float16 cells (the comparison with the broadcast row extremum must be exact for floats too)
+            out.append(dict(base, op=op, via="method", Rmin=1, R=2 if q else 3, L=2, pre=pre, dtype="float16"))
+            out.append(dict(base, op=op, via="np", Rmin=1, R=3, L=2, pre=pre))
     for op in ("max", "min"):
         out.append(dict(base, op=op, via="method", Rmin=1, empties=True))
         out.append(dict(base, op=op, via="reduce", Rmin=1, empties=True, R=3))
